@@ -723,14 +723,15 @@ class RatesBattery:
         from contracts import battery
         from scipy.integrate import quad
         from rpylib.distribution.samplingfactory import create_q_vector, compute_intensity_of_jumps
-        from rpylib.grid.spatial import CTMCUniformGrid, CTMCGridGeometric
+        from rpylib.grid.spatial import CTMCUniformGrid, CTMCGridGeometric, CTMCGridProbabilityStep
         import copy
         ev, viol, samples = 0, {}, []
 
         def bad(label, info):
             viol.setdefault(label, {"obligation": f"{self.name}::{label}", "bounded": self.name, "witness": info})
         for mname, m in battery.models().items():
-            for cname, mk in (("uniform", lambda: CTMCUniformGrid(h=0.1, model=m)), ("geometric", lambda: CTMCGridGeometric(h=0.1, model=m, nb_of_points_on_each_side=4))):
+            for cname, mk in (("uniform", lambda: CTMCUniformGrid(h=0.1, model=m)), ("geometric", lambda: CTMCGridGeometric(h=0.1, model=m, nb_of_points_on_each_side=4)),
+                              ("probability-step", lambda: CTMCGridProbabilityStep(h=0.05, model=m, minimum_probability_step=0.05))):
                 grid = mk()
                 for level in range(0, 3 if tier == "thorough" else 2):
                     mt = copy.deepcopy(m)
@@ -746,8 +747,17 @@ class RatesBattery:
                     if abs(q.sum() - lam) > 1e-9 * max(1, abs(lam)):
                         bad("rates-sum-to-intensity", {**info, "sum": float(q.sum()), "intensity": float(lam)})
                     idxs = [j for j in range(len(ax)) if j != o][:: max(1, len(ax) // 12)]
+                    if cname == "probability-step":
+                        idxs = sorted(set(idxs) | {o - 1, o + 1})          # the two states next to the central cell always
                     for j in idxs:
                         lo, hi = 0.5 * (ax[max(j - 1, 0)] + ax[j]), 0.5 * (ax[j] + ax[min(j + 1, len(ax) - 1)])
+                        if cname == "probability-step":
+                            # this grid defines its own cell boundaries (equal-probability points; +-h/2 around the origin)
+                            lo = float(grid.middle(float(ax[j - 1]), float(ax[j]))) if j > 0 else float(ax[0])
+                            hi = float(grid.middle(float(ax[j]), float(ax[j + 1]))) if j < len(ax) - 1 else float(ax[-1])
+                            inside = (lo < ax[j] < hi) or (j == 0 and lo == ax[j] < hi) or (j == len(ax) - 1 and lo < ax[j] == hi)
+                            if not inside or (j == o - 1 and abs(hi + grid.h / 2) > 1e-12) or (j == o + 1 and abs(lo - grid.h / 2) > 1e-12):
+                                bad("state-inside-its-own-cell-and-central-cell-is-(-h/2,h/2)", {**info, "state": j, "value": float(ax[j]), "cell": [lo, hi], "h": float(grid.h)})
                         want = quad(lambda x: float(m.levy_triplet.nu(x)), lo, hi, limit=200)[0]
                         if abs(q[j] - want) > 1e-6 * max(1e-3, abs(want)):
                             bad("rate-is-density-mass-of-the-cell", {**info, "state": j, "cell": [lo, hi], "rate": float(q[j]), "quadrature": want})
